@@ -131,6 +131,11 @@ def gen_btcdeb_cli(rng):
             txh = mutate_hex(rng, txh)
         if rng.random() < 0.2:
             finh = mutate_hex(rng, finh)
+        if rng.random() < 0.4:
+            # "--tx=amount1,amount2,..:<hex>": fewer, as many or more amounts than the transaction has inputs, well-formed or not
+            nam = rng.choice([1, 1, 2, 3, 5, 40])
+            txh = ','.join(rng.choice(['0.1', '0.00000001', '1', '0', '20999999.99999999', '21000001', '-1', '', 'abc', '1e3', '0.123456789', '.5', '92233720368.54775807', '184467440737.09551616'])
+                           for _ in range(nam)) + ':' + txh
         args += ['--tx=' + txh, '--txin=' + finh]
         if rng.random() < 0.4:
             args.append('--select=' + rng.choice(['0', '1', '2', '5', '-1', '-2', '99999999999', 'abc', '', '2147483648', '4294967296']))
@@ -158,10 +163,35 @@ REPL_CMDS = ['step', 'rewind', 'stack', 'altstack', 'vfexec', 'print', 'help', '
              'exec OP_CHECKSIGADD', 'exec OP_CAT', 'exec OP_2DIV', 'exec OP_PICK', 'exec OP_ROLL', 'exec 1000 OP_PICK', 'exec OP_CHECKLOCKTIMEVERIFY', 'exec OP_SHA256', '# comment', 'step # x']
 
 
+CODESEP_EXECS = ['exec OP_CODESEPARATOR OP_VERIFY', 'exec OP_CODESEPARATOR OP_RETURN', 'exec OP_CODESEPARATOR', 'exec OP_CODESEPARATOR OP_0 OP_0 OP_CHECKSIG', 'exec OP_1 OP_CODESEPARATOR OP_DROP OP_DROP OP_DROP OP_DROP',
+                 'exec OP_CODESEPARATOR OP_CODESEPARATOR OP_ENDIF', 'exec OP_0 OP_0 OP_CHECKSIG', 'exec OP_0 02' + '11' * 32 + ' OP_CHECKSIG', 'exec OP_0 OP_0 OP_0 OP_0 OP_CHECKMULTISIG',
+                 'exec OP_CODESEPARATOR OP_0 OP_0 OP_0 OP_0 OP_CHECKMULTISIG OP_VERIFY', 'exec OP_CODESEPARATOR 1000 OP_PICK', 'exec OP_CODESEPARATOR 0000000001 OP_1ADD', 'exec OP_CODESEPARATOR OP_BOGUS',
+                 'exec OP_0 OP_IF OP_CODESEPARATOR OP_ENDIF OP_VERIFY', 'exec OP_CODESEPARATOR ' + 'OP_1 ' * 40 + 'OP_VERIFY OP_0 OP_VERIFY']
+
+
+def gen_repl_codesep(rng):
+    """sessions in which OP_CODESEPARATOR is executable (CONST_SCRIPTCODE off, or segwit v0) and the script still has
+    signature checks ahead: exec lines that move the signature-hash start and then fail / succeed, then the checks."""
+    pk = bytes([2]) + bytes([rng.randrange(1, 250)]) * 32
+    units = [bytes([OP_0, OP_0, OP_CHECKSIG]), bytes([OP_0]) + push_data(pk) + bytes([OP_CHECKSIG]), bytes([OP_0, OP_0, OP_1]) + push_data(pk) + bytes([OP_1, OP_CHECKMULTISIG]),
+             bytes([OP_NOP]), bytes([OP_1, OP_DROP]), bytes([OP_CODESEPARATOR]), bytes([OP_DROP])]
+    s = b''.join(rng.choice(units) for _ in range(rng.choice([2, 3, 5, 9])))
+    args = ['--modify-flags=' + rng.choice(['-CONST_SCRIPTCODE', '-CONST_SCRIPTCODE,-STRICTENC', '-CONST_SCRIPTCODE,-NULLFAIL,-STRICTENC']), '0x' + s.hex()]
+    if rng.random() < 0.3:
+        args.append('0x' + bytes(rng.choice([1, 33, 71])).hex())
+    cmds = []
+    for _ in range(rng.choice([3, 6, 12, 25])):
+        q = rng.random()
+        cmds.append(rng.choice(CODESEP_EXECS) if q < 0.4 else 'step' if q < 0.8 else rng.choice(['rewind', 'print', 'stack', 'rewind']))
+    return ('btcdeb', 'repl:codesep', args, ('\n'.join(cmds) + '\n').encode(), 'repl', None)
+
+
 def gen_repl(rng):
     r = rng.random()
     args = []
     kind = 'plain'
+    if rng.random() < 0.12:
+        return gen_repl_codesep(rng)
     if r < 0.5:
         st = gen.rnd_stack(rng, sigs=True)[:4]
         s = gen.gen_deep(rng, BASE, STANDARD, rng.choice([1, 4, 10, 30]), st, sigops=True)
@@ -186,7 +216,7 @@ def gen_repl(rng):
         if q < 0.45:
             cmds.append(rng.choice(['step', 'step', 'step', 'rewind', 'rewind', 'print', 'stack']))
         elif q < 0.7:
-            cmds.append(rng.choice(REPL_CMDS))
+            cmds.append(rng.choice(REPL_CMDS if rng.random() < 0.8 else CODESEP_EXECS))
         elif q < 0.9:
             nm = rng.choice(TF_NAMES)
             cmds.append('tf %s %s' % (nm, ' '.join(hostile_arg(rng).replace('\n', '').replace('\r', '') for _ in range(rng.choice([0, 1, 1, 2, 3, 4])))))
@@ -255,6 +285,16 @@ def gen_tap(rng):
 GENS = [(gen_btcc, 2), (gen_btcdeb_cli, 4), (gen_repl, 3), (gen_tap, 2)]
 
 
+def line_editor_safe(stdin, mode):
+    """Where the input goes through GNU readline (terminal on stdin, scripted REPL), ESC and - in the C locale, where
+    readline converts them to ESC-prefixed keys - bytes >= 0x80 are editing commands of the line editor, not input of
+    btcdeb: `ESC 9 9 9 9 9 9 9 9 9 x` makes readline itself repeat a command 10^9 times (observed as a "hang" inside
+    rl_vi_eword).  Such bytes are not part of any command btcdeb gets to see; they are left out of those modes only."""
+    if mode in ('repl', 'pty', 'ptyin'):
+        return bytes(b for b in stdin if b != 0x1b and b < 0x80)
+    return stdin
+
+
 def worker(job):
     bindir, idx, n = job
     rng = sub_rng(PROP, idx)
@@ -266,6 +306,7 @@ def worker(job):
             g = rng.choice(pool)
             try:
                 tool, kind, args, stdin, mode, env = g(rng)
+                stdin = line_editor_safe(stdin, mode)
             except Exception as e:
                 part.inconc('generator:%s' % type(e).__name__)
                 continue
@@ -303,6 +344,7 @@ def memcheck_worker(job):
             g = rng.choice(pool)
             try:
                 tool, kind, args, stdin, mode, env = g(rng)
+                stdin = line_editor_safe(stdin, mode)
             except Exception:
                 continue
             if sum(len(a) for a in args) > 20000:
